@@ -87,8 +87,9 @@ fn algebra<S: Sc>(case: &Case, ck: &mut Ck<S>) {
 fn g_alg_scaled(rng: &mut Rng, tier: Tier) -> Case {
     let mut c = g_alg(rng, Tier::Quick);
     let _ = tier;
-    let k = rng.range(18, 40) as u32;
     let class = rng.below(4) as u16;
+    // class 0 goes below machine epsilon (2^-52): such quaternions are still not zero
+    let k = if class == 0 { rng.range(18, 59) as u32 } else { rng.range(18, 40) as u32 };
     c.class = class;
     match class {
         0 => {
